@@ -14,7 +14,7 @@ import (
 
 // graph: start -> OF -> (branch i: cond c_i) a_i -> OJ | end_i ; default branch (optional) ad -> OJ
 // OJ -> after -> end. ends: bit i set = branch i ends at its own end event instead of joining.
-func build(k int, withDefault bool, ends int, implicit bool) *drv.Graph {
+func build(k int, withDefault bool, ends int, how string) *drv.Graph {
 	g := drv.NewGraph(fmt.Sprintf("og_k%d_d%v_e%d", k, withDefault, ends))
 	start := g.Add(drv.Start, "start")
 	of := g.Add(drv.OR, "OF")
@@ -27,8 +27,10 @@ func build(k int, withDefault bool, ends int, implicit bool) *drv.Graph {
 		a := g.Add(drv.Task, fmt.Sprintf("a%d", i))
 		g.Link(of, a, drv.Var(fmt.Sprintf("c%d", i)))
 		if ends&(1<<(i-1)) != 0 {
-			// implicit: the branch ends at a task without outgoing flow (BPMN's implicit end)
-			if !implicit {
+			// implicit: the branch ends at a task without outgoing flow (BPMN's implicit end);
+			// exit: the branch's task is answered with an error in exit mode (it has an end event
+			// that is never reached)
+			if how != "implicit" {
 				e := g.Add(drv.End, fmt.Sprintf("e%d", i))
 				g.Link(a, e, nil)
 			}
@@ -51,8 +53,8 @@ func build(k int, withDefault bool, ends int, implicit bool) *drv.Graph {
 	return g
 }
 
-func scn(k int, withDefault bool, ends, bound int, implicit bool) *h.Scn {
-	g := build(k, withDefault, ends, implicit)
+func scn(k int, withDefault bool, ends, bound int, how string) *h.Scn {
+	g := build(k, withDefault, ends, how)
 	if g == nil {
 		return nil
 	}
@@ -64,11 +66,20 @@ func scn(k int, withDefault bool, ends, bound int, implicit bool) *h.Scn {
 			vars[fmt.Sprintf("c%d", i)] = truth&(1<<(i-1)) != 0
 		}
 		ls := &drv.LockStep{Sig: "C05/incl", G: g, Defs: defs, Vars: vars}
+		if how == "exit" {
+			ls.Exit = func(id string) bool {
+				var i int
+				if n, _ := fmt.Sscanf(id, "a%d", &i); n == 1 {
+					return ends&(1<<(i-1)) != 0
+				}
+				return false
+			}
+		}
 		ls.Body()()
 	}
 	name := fmt.Sprintf("C05/incl/k%d/default=%v/ends=%04b/d%d", k, withDefault, ends, bound)
-	if implicit {
-		name = fmt.Sprintf("C05/incl/k%d/default=%v/implicit-ends=%04b/d%d", k, withDefault, ends, bound)
+	if how != "" {
+		name = fmt.Sprintf("C05/incl/k%d/default=%v/%s-ends=%04b/d%d", k, withDefault, how, ends, bound)
 	}
 	sc := &h.Scn{Name: name, Body: body, Opts: verifrt.Options{Bound: bound, UseCache: true}}
 	sc.Weight = (1 << k) * k * (1 + 3000*bound)
@@ -96,15 +107,16 @@ func init() {
 		for k := 1; k <= 4; k++ {
 			for _, def := range []bool{false, true} {
 				for ends := 0; ends < 1<<k; ends++ {
-					add(scn(k, def, ends, 0, false))
+					add(scn(k, def, ends, 0, ""))
 					if k <= 2 || (thorough && k <= 3) {
-						add(scn(k, def, ends, 1, false))
+						add(scn(k, def, ends, 1, ""))
 					}
 					if thorough && k <= 2 && ends <= 1 {
-						add(scn(k, def, ends, 2, false))
+						add(scn(k, def, ends, 2, ""))
 					}
 					if ends != 0 && k <= 3 {
-						add(scn(k, def, ends, 0, true))
+						add(scn(k, def, ends, 0, "implicit"))
+						add(scn(k, def, ends, 0, "exit"))
 					}
 				}
 			}
